@@ -238,6 +238,11 @@ class CodemodExecutionContext:
             self.included_paths,
         )
 
+    def files_changed_since_prefilter(self) -> list[Path]:
+        """Find-and-fix files that codemods of this run have already rewritten."""
+        changed = {self.directory / path for path in self.get_changed_files()}
+        return [path for path in self.find_and_fix_paths if path in changed]
+
     def semgrep_results_for_rule(self, codemod_id: str) -> list[Path]:
         return (
             self.semgrep_prefilter_results.files_for_rule(codemod_id)
